@@ -622,7 +622,7 @@ def renderRouter : RouterC → RouterD
 — the builtin — instead of `self.type`.  Tied to the source by `tables_agree`
 (`Gen.contactFieldTypeBug`): when the source is fixed, set this to `false` and delete
 `render_load_needs_UntypedFields`. -/
-def fieldTypeBug : Bool := true
+def fieldTypeBug : Bool := false   -- F-C05-a fixed in /repo: `self.type` is rendered
 
 /-- every `render` of actions.py -/
 def renderAction : ActionD → ActionD
